@@ -113,7 +113,8 @@ def run(ctx):
         bad = False
         # half of the histories go through ONE dictionary-like interpreted view of the paragraph, looked up again for every
         # step (what it hands out must reflect the field as it is now); the others ask the field element each time
-        dict_view = next(iter(d)).as_interpreted_dict_view(interp[kind]) if rng.random() < 0.5 else None
+        dict_view = next(iter(d)).as_interpreted_dict_view(interp[kind], auto_resolve_ambiguous_fields=rng.random() < 0.6) \
+            if rng.random() < 0.5 else None
         for step in range(rng.randint(0, 3)):
             op = rng.choice(["append", "remove", "replace", "ref-set", "ref-remove", "aborted", "lazy-walk", "ref-later", "ref-refused"])
             try:
@@ -179,6 +180,11 @@ def run(ctx):
                         ops.append(["append", v])
                         l.append(v)
                         model.append(v)
+                        if rng.random() < 0.25:
+                            # a formatter chosen AFTER the edit, in the same session: the edit is still written back
+                            from debian._deb822_repro.formatter import one_value_per_line_trailing_separator
+                            ops[-1].append("then value_formatter(one_value_per_line_trailing_separator)")
+                            l.value_formatter(one_value_per_line_trailing_separator)
                     elif op == "remove" and len(model) >= 2:
                         v = rng.choice(model)
                         ops.append(["remove", v])
@@ -260,6 +266,29 @@ def run(ctx):
         if bad or t.fail:
             break
         t.case(key=(ftext, kind, str(ops)), sample={"field": ftext, "kind": kind, "operations": ops} if len(ops) == 2 else None)
+    if not t.fail:
+        # a comma-separated value that runs over several lines with a comment line inside it, read through every way of
+        # obtaining a list view
+        doc = "Package: x\nList: a,\n libfoo-dev\n# needs the new ABI\n   (>= 2.0),\n z\nOther: 1\n"
+        want = ["a", "libfoo-dev\n   (>= 2.0)", "z"]
+        try:
+            seen = {}
+            p_ = next(iter(repro.parse_deb822_file(doc.splitlines(True))))
+            with p_.get_kvpair_element("List").interpret_as(interp["comma"]) as l:
+                seen["interpret_as"] = list(l)
+            for ar in (True, False):
+                p_ = next(iter(repro.parse_deb822_file(doc.splitlines(True))))
+                v_ = p_.as_interpreted_dict_view(interp["comma"], auto_resolve_ambiguous_fields=ar)
+                with v_["List"] as l:
+                    seen["dict view, auto_resolve_ambiguous_fields=%s" % ar] = list(l)
+                with v_.get("List") as l:
+                    seen["dict view .get, auto_resolve_ambiguous_fields=%s" % ar] = list(l)
+            t.case(key="multi-line comma value with an inner comment")
+            wrong = {k: v for k, v in seen.items() if v != want}
+            if wrong:
+                t.failed("a list view does not ignore the comment line inside a multi-line value", document=doc, expected=want, got=wrong)
+        except Exception as e:
+            t.failed("reading a multi-line comma value with an inner comment raised %r" % (e,), document=doc)
     t.done()
     ctx.level = "other"
     ctx.explanation = ("PROVED from the real AST of debian._util (same contracts as C09): the LinkedList / OrderedSet operations "
